@@ -108,7 +108,7 @@ theorem getD_set_eq (l : List ℕ) {i : ℕ} (x : ℕ) (h : i < l.length) : (l.s
 
 theorem getD_set_ne (l : List ℕ) {i c : ℕ} (x : ℕ) (h : c ≠ i) :
     (l.set i x).getD c 0 = l.getD c 0 := by
-  simp [List.getD, List.getElem?_set, Ne.symm h]
+  simp [List.getD, Ne.symm h]
 
 theorem nextIAndJ_some {w : ℕ} {rv ru : List ℕ} {minI minJ i' : ℕ} {oj : Option ℕ}
     (h : nextIAndJ w rv ru minI minJ = (some i', oj)) :
@@ -375,7 +375,7 @@ theorem card_split {ι : Type*} [Finite ι] (p q r : ι → Prop) (h : ∀ k, r 
     (hd : ∀ k, ¬(p k ∧ q k)) :
     Nat.card {k // r k} = Nat.card {k // p k} + Nat.card {k // q k} := by
   classical
-  haveI := Fintype.ofFinite ι
+  have := Fintype.ofFinite ι
   simp only [Nat.card_eq_fintype_card, Fintype.card_subtype, Finset.card_filter]
   rw [← Finset.sum_add_distrib]
   apply Finset.sum_congr rfl
